@@ -502,7 +502,16 @@ private:
 
         if (_config.rotation_naming_scheme() == RotatingFileSinkConfig::RotationNamingScheme::Index)
         {
-          fs::remove(entry);
+          // only `logfile.log` and `logfile.<index>.log` belong to this sink, e.g. `logfile.access.log`
+          // and `logfile.access.1.log` are the files of another sink
+          std::string const entry_stem = entry.path().stem().string();
+          size_t const pos = entry_stem.find_last_of('.');
+
+          if ((pos == std::string::npos) ||
+              ((entry_stem.substr(0, pos) == filename.stem().string()) && _is_index(entry_stem.substr(pos + 1))))
+          {
+            fs::remove(entry);
+          }
         }
         else if (_config.rotation_naming_scheme() == RotatingFileSinkConfig::RotationNamingScheme::Date)
         {
@@ -519,7 +528,8 @@ private:
                 (index_or_date.length() >= 8) && (index_or_date == today_date))
             {
               // assume it is a date, no need to find the index
-              if (index_or_date == today_date)
+              if ((index_or_date == today_date) &&
+                  (entry.path().stem().string().substr(0, pos) == filename.stem().string()))
               {
                 fs::remove(entry);
               }
@@ -534,7 +544,8 @@ private:
               {
                 if (std::string const date_part =
                       filename_with_date.substr(second_last + 1, filename_with_date.length());
-                    date_part == today_date)
+                    (date_part == today_date) &&
+                    (filename_with_date.substr(0, second_last) == filename.stem().string()))
                 {
                   fs::remove(entry);
                 }
@@ -583,6 +594,12 @@ private:
               continue;
             }
 
+            if (current_filename != filename.filename().string())
+            {
+              // e.g. `logfile.access.1.log` is a rotated file of another sink
+              continue;
+            }
+
             // Attempt to convert the index to a number
             QUILL_TRY
             {
@@ -606,6 +623,12 @@ private:
               fs::path current_file = entry.path().parent_path();
               current_file.append(current_filename);
 
+              if (current_filename != filename.filename().string())
+              {
+                // a rotated file of another sink
+                continue;
+              }
+
               _created_files.emplace_front(current_file, 0, index_or_date);
             }
             else
@@ -624,7 +647,7 @@ private:
                   fs::path current_file = entry.path().parent_path();
                   current_file.append(current_filename);
 
-                  if (!_is_index(index_or_date))
+                  if (!_is_index(index_or_date) || (current_filename != filename.filename().string()))
                   {
                     continue;
                   }
